@@ -138,6 +138,13 @@ CORPORA = {
     # fused elementwise chains over creation / from_array sources of 7 elements under ALL 64 grids (C21: fast paths that
     # validate block-independence on a few probe blocks only)
     "d2-cre7-chain": dict(acts=["Elemwise", "Unary"], maxlen=2, preset="cre7", sim=False, lean=True, workers=4),
+    # two random bases of one program: equal generator, seed, distribution and shape, different chunkings (C23: the second is
+    # its own realization, not the first array's)
+    "d2-random-pair": dict(acts=["Random"], acts2=["Random"], maxlen=2, preset="lean1", sim=False, lean=True, workers=4,
+                           keep=lambda b: (all(b["prog"][1][k] == b["prog"][2][k] for k in ("gen", "seed", "dist", "shape"))
+                                           and b["prog"][1]["chunks"] != b["prog"][2]["chunks"])),
+    # one square source read several times, plain and transposed, in one fusable chain (C21 / C02: blocks off the diagonal)
+    "d3-sq-chain": dict(acts=["Transpose", "Elemwise"], maxlen=3, preset="sq", sim=False, lean=True, workers=4),
     # a node with two fusable dependencies (iteration order of dependency sets must not leak into names / keys)
     "d1-join": dict(acts=["Join"], maxlen=1, preset="lean", sim=False, lean=True, emit_all=True, final_only=True),
     # einsum patterns that choose index letters while parsing (ellipsis, several contracted indices)
